@@ -139,4 +139,835 @@ theorem binarySearch_isort (pl : List Nat) (n : Nat) :
     binarySearch (isort pl) n = true ↔ n ∈ pl := by
   rw [binarySearch_iff (sorted_isort pl), mem_isort]
 
+/-! ## 2. list facts -/
+
+/-- pigeonhole: a duplicate-free list whose elements all occur in `m` is no longer than `m` -/
+theorem nodup_length_le {l m : List Nat} (hn : l.Nodup) (hs : ∀ x ∈ l, x ∈ m) : l.length ≤ m.length := by
+  induction l generalizing m with
+  | nil => simp
+  | cons a l ih =>
+    have ha : a ∈ m := hs a (by simp)
+    rw [List.nodup_cons] at hn
+    have h1 : l.length ≤ (m.erase a).length := by
+      apply ih hn.2
+      intro x hx
+      have hxa : x ≠ a := by intro h; subst h; exact hn.1 hx
+      exact (List.mem_erase_of_ne hxa).mpr (hs x (by simp [hx]))
+    rw [List.length_erase_of_mem ha] at h1
+    have : 0 < m.length := List.length_pos_of_mem ha
+    simp; omega
+
+/-! ## 3. the push-only record list and the thresholds (invariant `Inv1`) -/
+
+/-- records reachable from the record pointer `p` (through the immutable `next` fields) -/
+def chain (s : St) (p : Nat) : List Nat := if p = 0 then [] else (p - 1) :: s.older (p - 1)
+
+def ptrOk (s : St) (p : Nat) : Prop := p = 0 ∨ p - 1 ∈ s.recs
+
+/-- the CAS on `*head` has succeeded -/
+def Pc.pushed : Pc → Bool
+  | .fresh | .joinCalled | .joinHead _ | .joinCount _ _ _ | .joinThr _ => false
+  | _ => true
+
+/-- `r` is still to be bumped by a joiner whose program counter is `p` -/
+def pend (s : St) (p : Pc) (r : Nat) : Prop :=
+  match p with
+  | .joinPushed => True
+  | .joinBump cur => r ∈ chain s cur
+  | .joinBumped cur => r ∈ s.older (cur - 1)
+  | _ => False
+
+structure Inv1 (s : St) : Prop where
+  hd : s.recs = chain s s.head
+  nd : s.recs.Nodup
+  old_sub : ∀ t ∈ s.recs, ∀ u ∈ s.older t, u ∈ s.recs
+  old_nd : ∀ t ∈ s.recs, (s.older t).Nodup
+  nxt : ∀ t ∈ s.recs, chain s (s.next t) = s.older t
+  rank1 : ∀ t ∈ s.recs, (s.older t).length < s.recs.length
+  rank2 : ∀ t ∈ s.recs, ∀ u ∈ s.older t, (s.older u).length < (s.older t).length
+  tri : ∀ a ∈ s.recs, ∀ b ∈ s.recs, a = b ∨ a ∈ s.older b ∨ b ∈ s.older a
+  pushed : ∀ t, t ∈ s.recs ↔ (s.pc t).pushed = true
+  jhead : ∀ t ch, s.pc t = .joinHead ch → ptrOk s ch
+  jcount : ∀ t ch cur cnt, s.pc t = .joinCount ch cur cnt →
+    s.next t = ch ∧ ptrOk s ch ∧ ptrOk s cur ∧ cnt + (chain s cur).length = 1 + (chain s ch).length
+  jthr : ∀ t ch, s.pc t = .joinThr ch →
+    s.next t = ch ∧ ptrOk s ch ∧ s.thr t = 2 * (1 + (chain s ch).length) * s.k
+  jbump : ∀ t cur, s.pc t = .joinBump cur → ptrOk s cur ∧ ∀ r ∈ chain s cur, r ∈ s.older t
+  jbumped : ∀ t cur, s.pc t = .joinBumped cur →
+    cur ≠ 0 ∧ cur - 1 ∈ s.recs ∧ cur - 1 ∈ s.older t ∧ ∀ r ∈ s.older (cur - 1), r ∈ s.older t
+  thr_eq : ∀ t ∈ s.recs, s.thr t = 2 * (1 + (s.older t).length + (s.bumpedBy t).length) * s.k
+  b1 : ∀ j ∈ s.recs, ∀ r ∈ s.older j, j ∈ s.bumpedBy r ∨ pend s (s.pc j) r
+  b2 : ∀ r, ∀ j ∈ s.bumpedBy r, j ∈ s.recs ∧ r ∈ s.older j
+  b3 : ∀ r, (s.bumpedBy r).Nodup
+  b4 : ∀ j r, pend s (s.pc j) r → j ∉ s.bumpedBy r
+
+theorem joined_pushed {p : Pc} (h : p.joined = true) : p.pushed = true := by
+  cases p <;> simp_all [Pc.joined, Pc.pushed]
+
+theorem pend_joined {s : St} {p : Pc} {r : Nat} (h : p.joined = true) : ¬ pend s p r := by
+  cases p <;> simp_all [Pc.joined, pend]
+
+/-- what an event outside `create_and_push` may change, as far as `Inv1` is concerned -/
+structure Frame1 (s s' : St) : Prop where
+  k : s'.k = s.k
+  head : s'.head = s.head
+  next : s'.next = s.next
+  thr : s'.thr = s.thr
+  recs : s'.recs = s.recs
+  older : s'.older = s.older
+  bumpedBy : s'.bumpedBy = s.bumpedBy
+  pc : ∀ u, s'.pc u = s.pc u ∨ ((s.pc u).joined = true ∧ (s'.pc u).joined = true)
+
+theorem Frame1.pc_eq {s s' : St} (f : Frame1 s s') {u : Nat} {p : Pc} (h : s'.pc u = p)
+    (hp : p.joined = false) : s.pc u = p := by
+  rcases f.pc u with h' | ⟨_, h'⟩
+  · rw [← h']; exact h
+  · rw [h] at h'; rw [hp] at h'; cases h'
+
+theorem Inv1.frame {s s' : St} (h : Inv1 s) (f : Frame1 s s') : Inv1 s' := by
+  have hch : ∀ p, chain s' p = chain s p := by intro p; simp [chain, f.older]
+  have hok : ∀ p, ptrOk s' p = ptrOk s p := by intro p; simp [ptrOk, f.recs]
+  have hpend : ∀ p r, pend s' p r = pend s p r := by
+    intro p r; cases p <;> simp [pend, hch, f.older]
+  constructor
+  · rw [f.recs, hch, f.head]; exact h.hd
+  · rw [f.recs]; exact h.nd
+  · simpa [f.recs, f.older] using h.old_sub
+  · simpa [f.recs, f.older] using h.old_nd
+  · simpa [f.recs, f.older, hch, f.next] using h.nxt
+  · simpa [f.recs, f.older] using h.rank1
+  · simpa [f.recs, f.older] using h.rank2
+  · simpa [f.recs, f.older] using h.tri
+  · intro t
+    rw [f.recs]
+    rcases f.pc t with h' | ⟨h1, h2⟩
+    · rw [h']; exact h.pushed t
+    · rw [h.pushed t, joined_pushed h1, joined_pushed h2]
+  · intro t ch hp
+    rw [hok]; exact h.jhead t ch (f.pc_eq hp rfl)
+  · intro t ch cur cnt hp
+    simp only [hok, hch, f.next]; exact h.jcount t ch cur cnt (f.pc_eq hp rfl)
+  · intro t ch hp
+    simp only [hok, hch, f.next, f.thr, f.k]; exact h.jthr t ch (f.pc_eq hp rfl)
+  · intro t cur hp
+    simp only [hok, hch, f.older]; exact h.jbump t cur (f.pc_eq hp rfl)
+  · intro t cur hp
+    simp only [f.recs, f.older]; exact h.jbumped t cur (f.pc_eq hp rfl)
+  · simpa [f.recs, f.older, f.thr, f.bumpedBy, f.k] using h.thr_eq
+  · intro j hj r hr
+    rw [f.recs] at hj; rw [f.older] at hr
+    rw [f.bumpedBy, hpend]
+    rcases f.pc j with h' | ⟨h1, h2⟩
+    · rw [h']; exact h.b1 j hj r hr
+    · rcases h.b1 j hj r hr with hb | hb
+      · exact Or.inl hb
+      · exact absurd hb (pend_joined h1)
+  · simpa [f.recs, f.older, f.bumpedBy] using h.b2
+  · simpa [f.bumpedBy] using h.b3
+  · intro j r hp
+    rw [hpend] at hp; rw [f.bumpedBy]
+    rcases f.pc j with h' | ⟨h1, h2⟩
+    · rw [h'] at hp; exact h.b4 j r hp
+    · exact absurd hp (pend_joined h2)
+
+macro "step_cases" h:ident : tactic =>
+  `(tactic| ((repeat' (split at $h:ident)) <;>
+      (try (simp only [Option.some.injEq, reduceCtorEq] at $h:ident)) <;> (try subst $h:ident)))
+
+macro "frame1_tac" t:term : tactic =>
+  `(tactic| (constructor <;> (try (simp [setPc]; done)) <;>
+      (intro u; by_cases hu : u = $t <;> simp_all [setPc, upd, Pc.joined])))
+
+@[simp] theorem chain_setPc (s : St) (t : Nat) (p : Pc) (q : Nat) : chain (setPc s t p) q = chain s q := rfl
+@[simp] theorem ptrOk_setPc (s : St) (t : Nat) (p : Pc) (q : Nat) : ptrOk (setPc s t p) q = ptrOk s q := rfl
+@[simp] theorem pend_setPc (s : St) (t : Nat) (p q : Pc) (r : Nat) : pend (setPc s t p) q r = pend s q r := by
+  cases q <;> rfl
+
+/-- a step of thread `t` inside `create_and_push` that only moves its program counter -/
+theorem Inv1.setPc {s : St} (h : Inv1 s) (t : Nat) (p' : Pc)
+    (hpushed : p'.pushed = (s.pc t).pushed)
+    (hjhead : ∀ ch, p' = .joinHead ch → ptrOk s ch)
+    (hjcount : ∀ ch cur cnt, p' = .joinCount ch cur cnt →
+      s.next t = ch ∧ ptrOk s ch ∧ ptrOk s cur ∧ cnt + (chain s cur).length = 1 + (chain s ch).length)
+    (hjthr : ∀ ch, p' = .joinThr ch →
+      s.next t = ch ∧ ptrOk s ch ∧ s.thr t = 2 * (1 + (chain s ch).length) * s.k)
+    (hjbump : ∀ cur, p' = .joinBump cur → ptrOk s cur ∧ ∀ r ∈ chain s cur, r ∈ s.older t)
+    (hjbumped : ∀ cur, p' = .joinBumped cur →
+      cur ≠ 0 ∧ cur - 1 ∈ s.recs ∧ cur - 1 ∈ s.older t ∧ ∀ r ∈ s.older (cur - 1), r ∈ s.older t)
+    (hb1 : t ∈ s.recs → ∀ r ∈ s.older t, t ∈ s.bumpedBy r ∨ pend s p' r)
+    (hb4 : ∀ r, pend s p' r → t ∉ s.bumpedBy r) : Inv1 (Hp.setPc s t p') := by
+  have hpc : ∀ u, (Hp.setPc s t p').pc u = if u = t then p' else s.pc u := by
+    intro u; simp [Hp.setPc, upd]
+  constructor
+  · exact h.hd
+  · exact h.nd
+  · exact h.old_sub
+  · exact h.old_nd
+  · exact h.nxt
+  · exact h.rank1
+  · exact h.rank2
+  · exact h.tri
+  · intro u; rw [hpc]; split
+    · next hu => subst hu; rw [hpushed]; exact h.pushed u
+    · exact h.pushed u
+  · intro u ch; rw [hpc]; split
+    · exact hjhead ch
+    · exact h.jhead u ch
+  · intro u ch cur cnt; rw [hpc]; split
+    · next hu => subst hu; exact hjcount ch cur cnt
+    · exact h.jcount u ch cur cnt
+  · intro u ch; rw [hpc]; split
+    · next hu => subst hu; exact hjthr ch
+    · exact h.jthr u ch
+  · intro u cur; rw [hpc]; split
+    · next hu => subst hu; exact hjbump cur
+    · exact h.jbump u cur
+  · intro u cur; rw [hpc]; split
+    · next hu => subst hu; exact hjbumped cur
+    · exact h.jbumped u cur
+  · exact h.thr_eq
+  · intro j hj r hr; rw [hpc, pend_setPc]; split
+    · next hu => subst hu; exact hb1 hj r hr
+    · exact h.b1 j hj r hr
+  · exact h.b2
+  · exact h.b3
+  · intro j r; rw [hpc, pend_setPc]; split
+    · next hu => subst hu; exact hb4 r
+    · exact h.b4 j r
+
+theorem Inv1.head_ok {s : St} (h : Inv1 s) : ptrOk s s.head := by
+  unfold ptrOk
+  by_cases h0 : s.head = 0
+  · exact Or.inl h0
+  · right; rw [h.hd]; simp [chain, h0]
+
+theorem Inv1.ptrOk_of_chain {s : St} (h : Inv1 s) {v u : Nat} (hu : u ∈ s.recs)
+    (hc : chain s v = s.older u) : ptrOk s v := by
+  unfold ptrOk
+  by_cases h0 : v = 0
+  · exact Or.inl h0
+  · right
+    apply h.old_sub u hu
+    rw [← hc]; simp [chain, h0]
+
+theorem Inv1.ptrOk_next {s : St} (h : Inv1 s) {u : Nat} (hu : u ∈ s.recs) : ptrOk s (s.next u) :=
+  h.ptrOk_of_chain hu (h.nxt u hu)
+
+theorem Inv1.not_mem_older_self {s : St} (h : Inv1 s) {u : Nat} (hu : u ∈ s.recs) : u ∉ s.older u := by
+  intro hm; have := h.rank2 u hu u hm; omega
+
+theorem Inv1.bumpedBy_nil {s : St} (h : Inv1 s) {t : Nat} (ht : t ∉ s.recs) : s.bumpedBy t = [] := by
+  apply List.eq_nil_iff_forall_not_mem.mpr
+  intro j hj
+  have := h.b2 t j hj
+  exact ht (h.old_sub j this.1 t this.2)
+
+theorem Inv1.updNext {s : St} (h : Inv1 s) {t : Nat} (v : Nat) (ht : t ∉ s.recs)
+    (hp1 : ∀ ch cur cnt, s.pc t ≠ .joinCount ch cur cnt) (hp2 : ∀ ch, s.pc t ≠ .joinThr ch) :
+    Inv1 { s with next := upd s.next t v } := by
+  constructor
+  · exact h.hd
+  · exact h.nd
+  · exact h.old_sub
+  · exact h.old_nd
+  · intro u hu
+    have : u ≠ t := by intro e; subst e; exact ht hu
+    show chain s (upd s.next t v u) = s.older u
+    rw [upd_other _ _ _ _ this]; exact h.nxt u hu
+  · exact h.rank1
+  · exact h.rank2
+  · exact h.tri
+  · exact h.pushed
+  · exact h.jhead
+  · intro u ch cur cnt hp
+    have : u ≠ t := by intro e; subst e; exact hp1 _ _ _ hp
+    show upd s.next t v u = ch ∧ _
+    rw [upd_other _ _ _ _ this]; exact h.jcount u ch cur cnt hp
+  · intro u ch hp
+    have : u ≠ t := by intro e; subst e; exact hp2 _ hp
+    show upd s.next t v u = ch ∧ _
+    rw [upd_other _ _ _ _ this]; exact h.jthr u ch hp
+  · exact h.jbump
+  · exact h.jbumped
+  · exact h.thr_eq
+  · exact h.b1
+  · exact h.b2
+  · exact h.b3
+  · exact h.b4
+
+theorem Inv1.updThr {s : St} (h : Inv1 s) {t : Nat} (v : Nat) (ht : t ∉ s.recs)
+    (hp2 : ∀ ch, s.pc t ≠ .joinThr ch) : Inv1 { s with thr := upd s.thr t v } := by
+  constructor
+  · exact h.hd
+  · exact h.nd
+  · exact h.old_sub
+  · exact h.old_nd
+  · exact h.nxt
+  · exact h.rank1
+  · exact h.rank2
+  · exact h.tri
+  · exact h.pushed
+  · exact h.jhead
+  · exact h.jcount
+  · intro u ch hp
+    have : u ≠ t := by intro e; subst e; exact hp2 _ hp
+    show _ ∧ _ ∧ upd s.thr t v u = _
+    rw [upd_other _ _ _ _ this]; exact h.jthr u ch hp
+  · exact h.jbump
+  · exact h.jbumped
+  · intro u hu
+    have : u ≠ t := by intro e; subst e; exact ht hu
+    show upd s.thr t v u = _
+    rw [upd_other _ _ _ _ this]; exact h.thr_eq u hu
+  · exact h.b1
+  · exact h.b2
+  · exact h.b3
+  · exact h.b4
+
+theorem inv1_init (k : Nat) : Inv1 (init k) := by
+  constructor <;> simp [init, chain, ptrOk, pend, Pc.pushed]
+
+/-! ### `Inv1` is preserved by the steps of `create_and_push` -/
+
+theorem inv1_callJoin {s s' : St} {t : Nat} (h : Inv1 s) (hs : stepCallJoin s t = some s') : Inv1 s' := by
+  unfold stepCallJoin at hs
+  step_cases hs
+  next hpc =>
+  have ht : t ∉ s.recs := by rw [h.pushed, hpc]; simp [Pc.pushed]
+  apply h.setPc <;> simp [hpc, Pc.pushed, pend, ht]
+
+theorem inv1_retJoin {s s' : St} {t : Nat} (h : Inv1 s) (hs : stepRetJoin s t = some s') : Inv1 s' := by
+  unfold stepRetJoin at hs
+  step_cases hs
+  next hpc =>
+  apply h.setPc <;> simp [hpc, Pc.pushed, pend]
+  intro ht r hr
+  have := h.b1 t ht r hr
+  simpa [hpc, pend, chain] using this
+
+theorem inv1_ldHead {s s' : St} {t v : Nat} (h : Inv1 s) (hs : stepLdHead s t v = some s') : Inv1 s' := by
+  unfold stepLdHead at hs
+  step_cases hs
+  · next hpc hv =>
+    subst hv
+    have ht : t ∉ s.recs := by rw [h.pushed, hpc]; simp [Pc.pushed]
+    apply h.setPc <;> simp [hpc, Pc.pushed, pend, ht]
+    exact h.head_ok
+  · next c hpc hv => exact h.frame (by frame1_tac t)
+
+theorem inv1_wrNext {s s' : St} {t r v : Nat} (h : Inv1 s) (hs : stepWrNext s t r v = some s') : Inv1 s' := by
+  unfold stepWrNext at hs
+  step_cases hs
+  next ch hpc hv =>
+  obtain ⟨rfl, rfl⟩ := hv
+  have ht : r ∉ s.recs := by rw [h.pushed, hpc]; simp [Pc.pushed]
+  have h1 := h.updNext (t := r) v ht (by simp [hpc]) (by simp [hpc])
+  have hok := h.jhead r v hpc
+  have := h1.setPc r (.joinCount v v 1) (by simp [hpc, Pc.pushed]) (by simp) (by
+      intro ch cur cnt e; cases e; exact ⟨by simp, hok, hok, rfl⟩) (by simp) (by simp) (by simp)
+      (by intro ht'; exact absurd ht' ht) (by simp [pend])
+  exact this
+
+theorem inv1_stThr {s s' : St} {t r v : Nat} (h : Inv1 s) (hs : stepStThr s t r v = some s') : Inv1 s' := by
+  unfold stepStThr at hs
+  step_cases hs
+  next ch cur cnt hpc hv =>
+  obtain ⟨rfl, rfl, rfl⟩ := hv
+  have ht : r ∉ s.recs := by rw [h.pushed, hpc]; simp [Pc.pushed]
+  have h1 := h.updThr (t := r) (2 * cnt * s.k) ht (by simp [hpc])
+  obtain ⟨hn, hok, _, hcnt⟩ := h.jcount r ch 0 cnt hpc
+  have := h1.setPc r (.joinThr ch) (by simp [hpc, Pc.pushed]) (by simp) (by simp) (by
+      intro ch' e; cases e
+      refine ⟨hn, hok, ?_⟩
+      have : cnt = 1 + (chain s ch).length := by simpa [chain] using hcnt
+      show upd s.thr r (2 * cnt * s.k) r = _
+      rw [upd_same, this]; rfl) (by simp) (by simp) (by intro ht'; exact absurd ht' ht) (by simp [pend])
+  exact this
+
+theorem inv1_rdNext {s s' : St} {t r v : Nat} (h : Inv1 s) (hs : stepRdNext s t r v = some s') : Inv1 s' := by
+  unfold stepRdNext at hs
+  step_cases hs
+  · next ch cur cnt hpc hv =>
+    obtain ⟨hc0, rfl, rfl⟩ := hv
+    obtain ⟨hn, hok, hcur, hcnt⟩ := h.jcount t ch cur cnt hpc
+    have hr : cur - 1 ∈ s.recs := by rcases hcur with h0 | h0; exact absurd h0 hc0; exact h0
+    have hch := h.nxt _ hr
+    have ht : t ∉ s.recs := by rw [h.pushed, hpc]; simp [Pc.pushed]
+    apply h.setPc <;> simp [hpc, Pc.pushed, pend, ht]
+    refine ⟨hn, hok, h.ptrOk_next hr, ?_⟩
+    rw [hch]
+    have hl : (chain s cur).length = 1 + (s.older (cur - 1)).length := by simp [chain, hc0]; omega
+    omega
+  · next hpc hv =>
+    obtain ⟨rfl, rfl⟩ := hv
+    have hr : r ∈ s.recs := by rw [h.pushed, hpc]; simp [Pc.pushed]
+    have hch := h.nxt _ hr
+    apply h.setPc <;> simp [hpc, Pc.pushed, pend]
+    · exact ⟨h.ptrOk_next hr, by rw [hch]; exact fun r hr => hr⟩
+    · intro _ r' hr'; right; rw [hch]; exact hr'
+    · intro r' _; exact h.b4 r r' (by simp [hpc, pend])
+  · next cur hpc hv =>
+    obtain ⟨hc0, rfl, rfl⟩ := hv
+    obtain ⟨_, hr, hro, hsub⟩ := h.jbumped t cur hpc
+    have hch := h.nxt _ hr
+    apply h.setPc <;> simp [hpc, Pc.pushed, pend]
+    · exact ⟨h.ptrOk_next hr, by rw [hch]; exact hsub⟩
+    · intro ht r' hr'
+      have := h.b1 t ht r' hr'
+      rw [hch]; simpa [hpc, pend] using this
+    · intro r' hr'
+      rw [hch] at hr'
+      exact h.b4 t r' (by simpa [hpc, pend] using hr')
+  · next c cap cur i pl walked hpc hv => exact h.frame (by frame1_tac t)
+
+theorem inv1_faddThr {s s' : St} {t r old op : Nat} (h : Inv1 s)
+    (hs : stepFaddThr s t r old op = some s') : Inv1 s' := by
+  unfold stepFaddThr at hs
+  step_cases hs
+  next cur hpc hv =>
+  obtain ⟨hc0, rfl, rfl, rfl⟩ := hv
+  obtain ⟨hok, hsub⟩ := h.jbump t cur hpc
+  have hr0 : cur - 1 ∈ s.recs := by rcases hok with h0 | h0; exact absurd h0 hc0; exact h0
+  have hchain : chain s cur = (cur - 1) :: s.older (cur - 1) := by simp [chain, hc0]
+  have ht : t ∈ s.recs := by rw [h.pushed, hpc]; simp [Pc.pushed]
+  have hnself := h.not_mem_older_self hr0
+  have hpc' : ∀ u, upd s.pc t (Pc.joinBumped cur) u = if u = t then Pc.joinBumped cur else s.pc u := by
+    intro u; simp [upd]
+  constructor
+  · exact h.hd
+  · exact h.nd
+  · exact h.old_sub
+  · exact h.old_nd
+  · exact h.nxt
+  · exact h.rank1
+  · exact h.rank2
+  · exact h.tri
+  · intro u; show _ ↔ (upd s.pc t _ u).pushed = true
+    rw [hpc']; split
+    · next hu => subst hu; simp [Pc.pushed, ht]
+    · exact h.pushed u
+  · intro u ch; show upd s.pc t _ u = _ → _
+    rw [hpc']; split
+    · simp
+    · exact h.jhead u ch
+  · intro u ch c cnt; show upd s.pc t _ u = _ → _
+    rw [hpc']; split
+    · simp
+    · exact h.jcount u ch c cnt
+  · intro u ch; show upd s.pc t _ u = _ → _
+    rw [hpc']; split
+    · simp
+    · intro hp
+      have hu : u ∉ s.recs := by rw [h.pushed, hp]; simp [Pc.pushed]
+      have : u ≠ cur - 1 := by intro e; rw [e] at hu; exact hu hr0
+      show _ ∧ _ ∧ upd s.thr _ _ u = _
+      rw [upd_other _ _ _ _ this]; exact h.jthr u ch hp
+  · intro u c; show upd s.pc t _ u = _ → _
+    rw [hpc']; split
+    · simp
+    · exact h.jbump u c
+  · intro u c; show upd s.pc t _ u = _ → _
+    rw [hpc']; split
+    · next hu =>
+      subst hu; intro e; cases e
+      refine ⟨hc0, hr0, hsub _ (by simp [hchain]), ?_⟩
+      intro r hr; exact hsub r (by simp [hchain, hr])
+    · exact h.jbumped u c
+  · intro u hu
+    show upd s.thr _ _ u = 2 * (1 + _ + (upd s.bumpedBy _ _ u).length) * s.k
+    by_cases e : u = cur - 1
+    · subst e; simp only [upd_same, List.length_cons]
+      have := h.thr_eq _ hr0
+      grind
+    · rw [upd_other _ _ _ _ e, upd_other _ _ _ _ e]; exact h.thr_eq u hu
+  · intro j hj r hr
+    show j ∈ upd s.bumpedBy _ _ r ∨ pend s (upd s.pc t _ j) r
+    rw [hpc']
+    have hb := h.b1 j hj r hr
+    by_cases e : j = t
+    · subst e; simp only [if_true, pend]
+      rw [hpc] at hb; simp only [pend, hchain, List.mem_cons] at hb
+      rcases hb with hb | hb | hb
+      · left; by_cases e : r = cur - 1
+        · subst e; simp [hb]
+        · rw [upd_other _ _ _ _ e]; exact hb
+      · subst hb; left; simp
+      · right; exact hb
+    · simp only [e, if_false]
+      rcases hb with hb | hb
+      · left; by_cases e : r = cur - 1
+        · subst e; simp [hb]
+        · rw [upd_other _ _ _ _ e]; exact hb
+      · right; exact hb
+  · intro r j hj
+    change j ∈ upd s.bumpedBy _ _ r at hj
+    by_cases e : r = cur - 1
+    · subst e; simp only [upd_same, List.mem_cons] at hj
+      rcases hj with rfl | hj
+      · exact ⟨ht, hsub _ (by simp [hchain])⟩
+      · exact h.b2 _ j hj
+    · rw [upd_other _ _ _ _ e] at hj; exact h.b2 r j hj
+  · intro r
+    show (upd s.bumpedBy _ _ r).Nodup
+    by_cases e : r = cur - 1
+    · subst e; simp only [upd_same, List.nodup_cons]
+      exact ⟨h.b4 t _ (by simp [hpc, pend, hchain]), h.b3 _⟩
+    · rw [upd_other _ _ _ _ e]; exact h.b3 r
+  · intro j r
+    show pend s (upd s.pc t _ j) r → j ∉ upd s.bumpedBy _ _ r
+    rw [hpc']
+    by_cases e : j = t
+    · subst e; simp only [if_true, pend]
+      intro hr
+      have e : r ≠ cur - 1 := by intro e; subst e; exact hnself hr
+      rw [upd_other _ _ _ _ e]
+      exact h.b4 j r (by simp [hpc, pend, hchain, hr])
+    · simp only [e, if_false]
+      intro hp
+      have := h.b4 j r hp
+      by_cases e' : r = cur - 1
+      · subst e'; simp [e, this]
+      · rw [upd_other _ _ _ _ e']; exact this
+
+theorem inv1_push_aux {s S : St} {t exp : Nat} (h : Inv1 s) (hpc : s.pc t = .joinThr exp)
+    (hfe : s.head = exp)
+    (hS_head : S.head = t + 1) (hS_recs : S.recs = t :: s.recs)
+    (hS_older : ∀ u, S.older u = if u = t then s.recs else s.older u)
+    (hS_pc : ∀ u, S.pc u = if u = t then Pc.joinPushed else s.pc u)
+    (hS_next : S.next = s.next) (hS_thr : S.thr = s.thr) (hS_k : S.k = s.k)
+    (hS_b : S.bumpedBy = s.bumpedBy) : Inv1 S := by
+    obtain ⟨hn, _, hthr⟩ := h.jthr t _ hpc
+    have ht : t ∉ s.recs := by rw [h.pushed, hpc]; simp [Pc.pushed]
+    have hne : ∀ u ∈ s.recs, u ≠ t := by intro u hu e; subst e; exact ht hu
+    have hrecs : chain s exp = s.recs := by rw [← hfe]; exact h.hd.symm
+    have hold : ∀ u ∈ s.recs, S.older u = s.older u := by
+      intro u hu; rw [hS_older, if_neg (hne u hu)]
+    have hchain : ∀ p, ptrOk s p → chain S p = chain s p := by
+      intro p hp
+      unfold chain
+      split
+      · rfl
+      · next h0 =>
+        rcases hp with hp | hp
+        · exact absurd hp h0
+        · rw [hold _ hp]
+    have hokm : ∀ p, ptrOk s p → ptrOk S p := by
+      intro p hp; unfold ptrOk at *; rw [hS_recs]
+      rcases hp with hp | hp
+      · exact Or.inl hp
+      · exact Or.inr (by simp [hp])
+    have hpend : ∀ u, u ≠ t → ∀ r, pend S (s.pc u) r ↔ pend s (s.pc u) r := by
+      intro u hu r
+      cases hp : s.pc u <;> simp only [pend]
+      · next cur => rw [hchain _ (h.jbump u cur hp).1]
+      · next cur => rw [hold _ (h.jbumped u cur hp).2.1]
+    have hbt : ∀ r, t ∉ s.bumpedBy r := by
+      intro r hm; exact ht (h.b2 r t hm).1
+    constructor
+    · rw [hS_recs, hS_head]; simp [chain, hS_older]
+    · rw [hS_recs, List.nodup_cons]; exact ⟨ht, h.nd⟩
+    · intro u hu w hw
+      rw [hS_recs] at hu ⊢
+      rw [hS_older] at hw
+      split at hw
+      · simp [hw]
+      · next e =>
+        have hu' : u ∈ s.recs := by simpa [e] using hu
+        simp [h.old_sub u hu' w hw]
+    · intro u hu
+      rw [hS_recs] at hu
+      rw [hS_older]; split
+      · exact h.nd
+      · next e => exact h.old_nd u (by simpa [e] using hu)
+    · intro u hu
+      rw [hS_recs] at hu; rw [hS_next, hS_older]
+      split
+      · next e => subst e; rw [hn, hchain _ (h.jthr u _ hpc).2.1, hrecs]
+      · next e =>
+        have hu' : u ∈ s.recs := by simpa [e] using hu
+        rw [hchain _ (h.ptrOk_next hu')]; exact h.nxt u hu'
+    · intro u hu
+      rw [hS_recs] at hu ⊢; rw [hS_older]; split
+      · simp
+      · next e =>
+        have hu' : u ∈ s.recs := by simpa [e] using hu
+        have := h.rank1 u hu'; simp; omega
+    · intro u hu w hw
+      rw [hS_recs] at hu
+      rw [hS_older u] at hw ⊢
+      split at hw
+      · next e => rw [hold w hw]; simpa [e] using h.rank1 w hw
+      · next e =>
+        have hu' : u ∈ s.recs := by simpa [e] using hu
+        rw [if_neg e, hold w (h.old_sub u hu' w hw)]; exact h.rank2 u hu' w hw
+    · intro a ha b hb
+      rw [hS_recs] at ha hb
+      rw [hS_older a, hS_older b]
+      by_cases ea : a = t <;> by_cases eb : b = t
+      · left; rw [ea, eb]
+      · right; right; simp only [ea, if_true]; simpa [eb] using hb
+      · right; left; simp only [eb, if_true]; simpa [ea] using ha
+      · simp only [ea, eb, if_false]
+        exact h.tri a (by simpa [ea] using ha) b (by simpa [eb] using hb)
+    · intro u
+      rw [hS_recs, hS_pc]; split
+      · next e => simp [e, Pc.pushed]
+      · next e => simp [e, h.pushed u]
+    · intro u c; rw [hS_pc]; split
+      · simp
+      · intro hp; exact hokm _ (h.jhead u c hp)
+    · intro u c cur cnt; rw [hS_pc]; split
+      · simp
+      · intro hp
+        obtain ⟨a1, a2, a3, a4⟩ := h.jcount u c cur cnt hp
+        rw [hS_next, hchain _ a2, hchain _ a3]
+        exact ⟨a1, hokm _ a2, hokm _ a3, a4⟩
+    · intro u c; rw [hS_pc]; split
+      · simp
+      · intro hp
+        obtain ⟨a1, a2, a3⟩ := h.jthr u c hp
+        rw [hS_next, hS_thr, hS_k, hchain _ a2]
+        exact ⟨a1, hokm _ a2, a3⟩
+    · intro u c; rw [hS_pc]; split
+      · simp
+      · next e =>
+        intro hp
+        obtain ⟨a1, a2⟩ := h.jbump u c hp
+        rw [hchain _ a1, hS_older, if_neg e]
+        exact ⟨hokm _ a1, a2⟩
+    · intro u c; rw [hS_pc]; split
+      · simp
+      · next e =>
+        intro hp
+        obtain ⟨a1, a2, a3, a4⟩ := h.jbumped u c hp
+        rw [hS_recs, hold _ a2, hS_older u, if_neg e]
+        exact ⟨a1, by simp [a2], a3, a4⟩
+    · intro u hu
+      rw [hS_recs] at hu; rw [hS_thr, hS_k, hS_b, hS_older]
+      split
+      · next e =>
+        subst e; rw [hthr, hrecs, h.bumpedBy_nil ht]; simp
+      · next e => exact h.thr_eq u (by simpa [e] using hu)
+    · intro j hj r hr
+      rw [hS_recs] at hj; rw [hS_b, hS_pc]
+      rw [hS_older] at hr
+      split
+      · right; simp [pend]
+      · next e =>
+        rw [if_neg e] at hr
+        rw [hpend j e r]
+        exact h.b1 j (by simpa [e] using hj) r hr
+    · intro r j hj
+      rw [hS_b] at hj
+      obtain ⟨a1, a2⟩ := h.b2 r j hj
+      rw [hS_recs, hold j a1]; exact ⟨by simp [a1], a2⟩
+    · rw [hS_b]; exact h.b3
+    · intro j r
+      rw [hS_b, hS_pc]; split
+      · next e => subst e; intro _; exact hbt r
+      · next e => rw [hpend j e r]; exact h.b4 j r
+
+theorem inv1_casHead {s s' : St} {t found exp des : Nat} {ok : Bool} (h : Inv1 s)
+    (hs : stepCasHead s t found exp des ok = some s') : Inv1 s' := by
+  unfold stepCasHead at hs
+  step_cases hs
+  · next ch hpc hv hok =>
+    obtain ⟨rfl, rfl, rfl, hdec⟩ := hv
+    have hfe : s.head = exp := by simpa [hok] using hdec
+    apply inv1_push_aux h hpc hfe rfl rfl
+    · intro u; simp [upd]
+    · intro u; simp [upd]
+    all_goals rfl
+  · next ch hpc hv hok =>
+    obtain ⟨rfl, rfl, rfl, _⟩ := hv
+    have ht : t ∉ s.recs := by rw [h.pushed, hpc]; simp [Pc.pushed]
+    apply h.setPc <;> simp [hpc, Pc.pushed, pend, ht]
+    exact h.head_ok
+
+/-! ### every other event leaves the `Inv1` view unchanged -/
+
+theorem frame1_LdThr {s s' : St} {t r v : Nat} (hs : stepLdThr s t r v = some s') : Frame1 s s' := by
+  unfold stepLdThr at hs
+  step_cases hs
+  all_goals frame1_tac t
+
+theorem frame1_RdRc {s s' : St} {t r v : Nat} (hs : stepRdRc s t r v = some s') : Frame1 s s' := by
+  unfold stepRdRc at hs
+  step_cases hs
+  all_goals frame1_tac t
+
+theorem frame1_WrRc {s s' : St} {t r v : Nat} (hs : stepWrRc s t r v = some s') : Frame1 s s' := by
+  unfold stepWrRc at hs
+  step_cases hs
+  all_goals frame1_tac t
+
+theorem frame1_RdHp {s s' : St} {t r i v : Nat} (hs : stepRdHp s t r i v = some s') : Frame1 s s' := by
+  unfold stepRdHp at hs
+  step_cases hs
+  all_goals frame1_tac t
+
+theorem frame1_WrHp {s s' : St} {t r i v : Nat} (hs : stepWrHp s t r i v = some s') : Frame1 s s' := by
+  unfold stepWrHp at hs
+  step_cases hs
+  all_goals frame1_tac t
+
+theorem frame1_Fence {s s' : St} {t : Nat} (hs : stepFence s t = some s') : Frame1 s s' := by
+  unfold stepFence at hs
+  step_cases hs
+  all_goals frame1_tac t
+
+theorem frame1_LdG {s s' : St} {t g v : Nat} (hs : stepLdG s t g v = some s') : Frame1 s s' := by
+  unfold stepLdG at hs
+  step_cases hs
+  all_goals frame1_tac t
+
+theorem frame1_XchgG {s s' : St} {t g old new : Nat} (hs : stepXchgG s t g old new = some s') : Frame1 s s' := by
+  unfold stepXchgG at hs
+  step_cases hs
+  all_goals frame1_tac t
+
+theorem frame1_CallAcq {s s' : St} {t g sl : Nat} (hs : stepCallAcq s t g sl = some s') : Frame1 s s' := by
+  unfold stepCallAcq at hs
+  step_cases hs
+  all_goals frame1_tac t
+
+theorem frame1_Validated {s s' : St} {t sl n : Nat} (hs : stepValidated s t sl n = some s') : Frame1 s s' := by
+  unfold stepValidated at hs
+  step_cases hs
+  all_goals frame1_tac t
+
+theorem frame1_Use {s s' : St} {t sl n : Nat} (hs : stepUse s t sl n = some s') : Frame1 s s' := by
+  unfold stepUse at hs
+  step_cases hs
+  all_goals frame1_tac t
+
+theorem frame1_RetAcq {s s' : St} {t n : Nat} (hs : stepRetAcq s t n = some s') : Frame1 s s' := by
+  unfold stepRetAcq at hs
+  step_cases hs
+  all_goals frame1_tac t
+
+theorem frame1_CallRel {s s' : St} {t sl : Nat} (hs : stepCallRel s t sl = some s') : Frame1 s s' := by
+  unfold stepCallRel at hs
+  step_cases hs
+  all_goals frame1_tac t
+
+theorem frame1_RetRel {s s' : St} {t : Nat} (hs : stepRetRel s t = some s') : Frame1 s s' := by
+  unfold stepRetRel at hs
+  step_cases hs
+  all_goals frame1_tac t
+
+theorem frame1_CallX {s s' : St} {t g : Nat} (hs : stepCallX s t g = some s') : Frame1 s s' := by
+  unfold stepCallX at hs
+  step_cases hs
+  all_goals frame1_tac t
+
+theorem frame1_Alloc {s s' : St} {t n : Nat} (hs : stepAlloc s t n = some s') : Frame1 s s' := by
+  unfold stepAlloc at hs
+  step_cases hs
+  all_goals frame1_tac t
+
+theorem frame1_CallRetire {s s' : St} {t n : Nat} (hs : stepCallRetire s t n = some s') : Frame1 s s' := by
+  unfold stepCallRetire at hs
+  step_cases hs
+  all_goals frame1_tac t
+
+theorem frame1_RetRetire {s s' : St} {t : Nat} (hs : stepRetRetire s t = some s') : Frame1 s s' := by
+  unfold stepRetRetire at hs
+  step_cases hs
+  all_goals frame1_tac t
+
+theorem frame1_RcNote {s s' : St} {t r v : Nat} (hs : stepRcNote s t r v = some s') : Frame1 s s' := by
+  unfold stepRcNote at hs
+  step_cases hs
+  all_goals frame1_tac t
+
+theorem frame1_RetX {s s' : St} {t : Nat} (hs : stepRetX s t = some s') : Frame1 s s' := by
+  unfold stepRetX at hs
+  step_cases hs
+  all_goals frame1_tac t
+
+theorem frame1_CallScan {s s' : St} {t : Nat} (hs : stepCallScan s t = some s') : Frame1 s s' := by
+  unfold stepCallScan at hs
+  step_cases hs
+  all_goals frame1_tac t
+
+theorem frame1_RetScan {s s' : St} {t : Nat} (hs : stepRetScan s t = some s') : Frame1 s s' := by
+  unfold stepRetScan at hs
+  step_cases hs
+  all_goals frame1_tac t
+
+theorem frame1_Reclaim {s s' : St} {t n : Nat} (hs : stepReclaim s t n = some s') : Frame1 s s' := by
+  unfold stepReclaim at hs
+  step_cases hs
+  all_goals frame1_tac t
+
+theorem inv1_step {s s' : St} {e : Ev} (h : Inv1 s) (hs : step s e = some s') : Inv1 s' := by
+  cases e with
+
+  | callJoin t => exact inv1_callJoin h hs
+
+  | retJoin t => exact inv1_retJoin h hs
+
+  | ldHead t v => exact inv1_ldHead h hs
+
+  | casHead t f e d ok => exact inv1_casHead h hs
+
+  | wrNext t r v => exact inv1_wrNext h hs
+
+  | rdNext t r v => exact inv1_rdNext h hs
+
+  | stThr t r v => exact inv1_stThr h hs
+
+  | ldThr t r v => exact h.frame (frame1_LdThr hs)
+
+  | faddThr t r old op => exact inv1_faddThr h hs
+
+  | rdRc t r v => exact h.frame (frame1_RdRc hs)
+
+  | wrRc t r v => exact h.frame (frame1_WrRc hs)
+
+  | rdHp t r i v => exact h.frame (frame1_RdHp hs)
+
+  | wrHp t r i v => exact h.frame (frame1_WrHp hs)
+
+  | fence t => exact h.frame (frame1_Fence hs)
+
+  | ldG t g v => exact h.frame (frame1_LdG hs)
+
+  | xchgG t g old new => exact h.frame (frame1_XchgG hs)
+
+  | callAcq t g sl => exact h.frame (frame1_CallAcq hs)
+
+  | validated t sl n => exact h.frame (frame1_Validated hs)
+
+  | use t sl n => exact h.frame (frame1_Use hs)
+
+  | retAcq t n => exact h.frame (frame1_RetAcq hs)
+
+  | callRel t sl => exact h.frame (frame1_CallRel hs)
+
+  | retRel t => exact h.frame (frame1_RetRel hs)
+
+  | callX t g => exact h.frame (frame1_CallX hs)
+
+  | alloc t n => exact h.frame (frame1_Alloc hs)
+
+  | callRetire t n => exact h.frame (frame1_CallRetire hs)
+
+  | retRetire t => exact h.frame (frame1_RetRetire hs)
+
+  | rcNote t r v => exact h.frame (frame1_RcNote hs)
+
+  | retX t => exact h.frame (frame1_RetX hs)
+
+  | callScan t => exact h.frame (frame1_CallScan hs)
+
+  | retScan t => exact h.frame (frame1_RetScan hs)
+
+  | reclaim t n => exact h.frame (frame1_Reclaim hs)
+
+
+theorem inv1_of_run {k : Nat} {es : List Ev} {s : St} (h : (sys k).run es = some s) : Inv1 s :=
+  Sys.inv_of_run (sys k) Inv1 (inv1_init k) (fun _ _ _ hi hs => inv1_step hi hs) h
+
 end LibfiberVerif.Hp
